@@ -229,7 +229,7 @@ theorem Inv.doOp (st : St) (t : String) (a : List Arg) (o : Outs) (nn : Option S
   have h2 : Inv' (newValuesK st1 (outKeys st1.cur (N st1) t o)).fst
       (N (newValuesK st1 (outKeys st1.cur (N st1) t o)).fst + 1) := by rw [hn]; exact h2
   exact Inv.congr (a := addNode (newValuesK st1 (outKeys st1.cur (N st1) t o)).fst
-    ⟨match nn with | some n => n | none => autoNodeName st1.cur (N st1) t, "", t, ins,
+    ⟨nn.getD (autoNodeName st1.cur (N st1) t), "", t, ins,
      (newValuesK st1 (outKeys st1.cur (N st1) t o)).snd, g, ""⟩) rfl rfl rfl rfl (Inv.ofAddNode _ _ h2)
 
 theorem Inv.doCall (fns : List Fn) (st : St) (fi : Nat) (a : List Arg) (o : Option Outs)
